@@ -270,7 +270,7 @@ def _outer_object_table(ctx: Ctx):
         defs.append(d)
         return len(defs) - 1
     arg = add('AssignDef', site=Obj('Argument'), prev=None)
-    lit = add('AssignDef', site=Obj('Assign', expr=Obj('ListExpr')), prev=None)
+    lit = add('AssignDef', site=Obj('Assign', expr=Obj('ListExpr', elts=[Obj('Decnum'), Obj('Decnum')])), prev=None)
     rows: list[tuple[str, int, bool]] = [('the argument', arg, True), ('a list literal', lit, False)]
     for root, outer, what in ((arg, True, 'the argument'), (lit, False, 'a local list')):
         store = len(defs) + 1
@@ -284,6 +284,18 @@ def _outer_object_table(ctx: Ctx):
         pick2 = add('AssignDef', site=Obj('Assign', expr=Obj('IfExpr', ift=var(root), iff=var(lit))), prev=None)
         tup = add('AssignDef', site=Obj('Assign', expr=Obj('TupleExpr', elts=[var(root), var(lit)])), prev=None)
         tup2 = add('AssignDef', site=Obj('Assign', expr=Obj('TupleExpr', elts=[var(lit), var(lit), var(root)])), prev=None)
+        # shallow copies: a new list of the same rows
+        sl = add('AssignDef', site=Obj('Assign', expr=Obj('ListRef', value=Obj('ListSlice', value=var(root)))), prev=None)
+        wrap = add('AssignDef', site=Obj('Assign', expr=Obj('ListRef', value=Obj('ListExpr', elts=[Obj('ListRef', value=var(root)), var(lit)]))), prev=None)
+        en = add('AssignDef', site=Obj('ForStmt', iterable=Obj('Enumerate', arg=var(root))), prev=None)
+        zp = add('AssignDef', site=Obj('ForStmt', iterable=Obj('Zip', args=[var(lit), var(root)])), prev=None)
+        comp_site = Obj('ListComp', iterables=[var(root)])
+        ctgt = add('AssignDef', site=comp_site, prev=None)
+        uses_ctgt = var(ctgt)
+        comp_site.fields['elt'] = uses_ctgt
+        cp = add('AssignDef', site=Obj('Assign', expr=Obj('ListRef', value=Obj('ListComp', elt=uses_ctgt, iterables=[var(root)]))), prev=None)
+        rows += [(f'a row of a slice of {what}', sl, outer), (f'a row of a list literal holding a row of {what}', wrap, outer), (f'a loop target over enumerate({what})', en, outer),
+                 (f'a loop target over zip(literal, {what})', zp, outer), (f'a row of [r for r in {what}]', cp, outer)]
         rows += [(f'a loop merge of {what}', phi, outer), (f'{what} after an element store in a loop', st, outer), (f'an alias of {what}', alias, outer),
                  (f'an element of {what}', elem, outer), (f'a loop target over {what}', tgt, outer), (f'a literal or {what}, by a condition', pick, outer),
                  (f'{what} or a literal, by a condition', pick2, outer), (f'a tuple holding {what} and a literal', tup, outer), (f'a tuple holding literals and {what}', tup2, outer)]
@@ -293,7 +305,8 @@ def _outer_object_table(ctx: Ctx):
     du.fields['find_def_from_use'] = lambda e: defs[uses[id(e)]]
     is_a = lambda k, c: k == c or (c == 'Definition' and k in ('AssignDef', 'PhiDef'))  # noqa: E731
     for label, i, want in rows:
-        it = Interp({'same_object_defs': same}, methods=methods, is_a=is_a, self_obj=Obj('_Purity', def_use=du))
+        it = Interp({'same_object_defs': same}, methods=methods, is_a=is_a, self_obj=Obj('_Purity', def_use=du),
+                    overrides={'TupleExpr': lambda elts, loc=None: Obj('TupleExpr', elts=list(elts))})
         try:
             got = bool(it.call_function(methods['_may_be_outer'], [defs[i], set()], bound_self=True))
         except ShapeError as ex:
@@ -498,6 +511,11 @@ RULES = [
 from ..selftest import Mutant  # noqa: E402
 
 MUTANTS = [
+    Mutant('shallow-copies-taken-for-new-lists', PURITY, "                case ListSlice():\n                    # a new list of the same elements\n                    sources.append(e.value)\n                case ListComp():\n                    sources += [e.elt, *e.iterables]\n                case Enumerate():\n                    sources.append(e.arg)\n                case Zip():\n                    sources += list(e.args)\n", "", 'C07.X1',
+           'finding F91 before its repair: for i, row in enumerate(m): row[0] = 0 is pure to the analysis'),
+    Mutant('list-literal-hides-its-rows', PURITY, "                case TupleExpr() | ListExpr():", "                case TupleExpr():", 'C07.X1'),
+    Mutant('comprehension-target-taken-for-local', PURITY, "            case ListComp():\n                # a comprehension target names the elements of its iterables\n                e = TupleExpr(list(d.site.iterables), None)\n", "", 'C07.X1',
+           'the iterables of a comprehension are followed wherever the comprehension itself is met, so the target adds nothing', expect='silent'),
     Mutant('one-draw-folded-to-a-constant', PE, "        if ctx.is_stochastic():\n            return None\n        try:", "        try:", 'C07.G4',
            'finding F74 before its repair: `1.0 / 3.0` under a stochastic binary16 context is reported constant'),
     Mutant('stochastic-test-inverted', PE, "        if ctx.is_stochastic():\n            return None\n        try:", "        if not ctx.is_stochastic():\n            return None\n        try:", 'C07.G4'),
